@@ -9,7 +9,7 @@ func init() {
 	register(&propDef{
 		id: "C33", title: "Relocation accounts for every item and runs once per departure",
 		technique: "lockset + test-and-insert rule on the job table, guard dominance (dispatch only by the winner of beginRelocation), release pairing on error edges, who-may-call on job release, path rule for the worker (every exit releases the job; at most one failure event)",
-		explanation: "Decides: (1) the relocation job table is accessed only under its mutex and beginRelocation is a test-and-insert in one critical section; (2) a Rebalance is dispatched to the relocator only on the edge where beginRelocation returned true; the losing edge returns without dispatch or RelocationStarted event; a failed dispatch releases the job again; (3) endRelocation is called only by the worker's finish, the worker's stopping-system exit, the relocator's abort path and the two dispatch error edges; every exit of relocationWorker.relocate reaches finish or endRelocation exactly once; (4) one relocate/abort path publishes at most one RelocationFailed event, built from the merged failure set; (5) worker death: the relocator aborts only when the registered job is the dead worker's own snapshot (pointer identity).",
+		explanation: "Decides: (1) the relocation job table is accessed only under its mutex and beginRelocation is a test-and-insert in one critical section; (2) a Rebalance is dispatched to the relocator only on the edge where beginRelocation returned true; the losing edge returns without dispatch or RelocationStarted event; a failed dispatch releases the job again; (3) endRelocation is called only by the worker's finish, the worker's stopping-system exit, the relocator's abort path and the two dispatch error edges; every exit of relocationWorker.relocate reaches finish or endRelocation exactly once; (4) one relocate/abort path publishes at most one RelocationFailed event, built from the merged failure set; (5) worker death: the relocator aborts only when the registered job is the dead worker's own snapshot (pointer identity). Added after seed C33a: on completion and on abort the departed node's stored snapshot is deleted before the relocation job is released.",
 		assumptions: []string{"'every relocated item ends up running on exactly one survivor' is a distributed outcome", "per-item accounting inside enqueueRelocation/relocateShare is covered only through the shared failure collector"},
 		minObl:     18,
 		run:        runC33,
